@@ -154,7 +154,7 @@ Definition nbase (i : input) : Z := if secondLoaded i then hnZ i else 0.
 (** [F] = number of source bytes before forward; [lo0]/[lo1] = source offset of the first byte
     of the first/second half (the older half may lie before the source: the second half before
     its first load). *)
-Record BInv (S : list N) (i : input) (F lo0 lo1 : Z) : Prop := mkBInv {
+Record BCore (S : list N) (i : input) (F lo0 lo1 : Z) : Prop := mkBCore {
   bi_n : 1 <= hnZ i;
   bi_len : zlen (buff i) = 2 * hnZ i;
   bi_order : if secondLoaded i then lo1 = lo0 + hnZ i else lo0 = lo1 + hnZ i;
@@ -166,9 +166,22 @@ Record BInv (S : list N) (i : input) (F lo0 lo1 : Z) : Prop := mkBInv {
             bz (buff i) (nbase i + (slen S - newest i lo0 lo1)) = 0%N;
   bi_fwr : 0 <= forward i < 2 * hnZ i;
   bi_fw : F = if forward i <? hnZ i then lo0 + forward i else lo1 + forward i - hnZ i;
-  bi_F : 0 <= F <= slen S /\ F < newest i lo0 lo1 + hnZ i /\ older i lo0 lo1 <= F;
-  bi_err : err i = true <-> F = slen S
+  bi_F : 0 <= F <= slen S /\ F < newest i lo0 lo1 + hnZ i /\ older i lo0 lo1 <= F
 }.
+
+(** io.EOF is detected ahead of time: the sticky error is set exactly when forward is at the end. *)
+Definition BInv (S : list N) (i : input) (F lo0 lo1 : Z) : Prop :=
+  BCore S i F lo0 lo1 /\ (err i = true <-> F = slen S).
+
+(** [BCore] only looks at the buffer, the reader, the load flag, forward and N. *)
+Lemma BCore_ext : forall S i i' F lo0 lo1,
+  hn i' = hn i -> buff i' = buff i -> src i' = src i -> secondLoaded i' = secondLoaded i ->
+  forward i' = forward i -> BCore S i F lo0 lo1 -> BCore S i' F lo0 lo1.
+Proof.
+  intros S i i' F lo0 lo1 H1 H2 H3 H4 H5 [A B C D E G H I J K M].
+  unfold newest, older, nbase, hnZ in *.
+  constructor; unfold newest, older, nbase, hnZ; rewrite ?H1, ?H2, ?H3, ?H4, ?H5; assumption.
+Qed.
 
 (** The fields [next] does not touch. *)
 Definition same_rest (i i' : input) : Prop :=
